@@ -13,6 +13,7 @@ import (
 	"os/exec"
 	"path/filepath"
 	"regexp"
+	"runtime"
 	"sort"
 	"strconv"
 	"strings"
@@ -455,6 +456,7 @@ func run(c *hx.Ctx) error {
 
 	// in-process builds
 	first := make([]digest, len(ins))
+	skip := make([]bool, len(ins))
 	reported := 0
 	report := func(in *input, a, b digest, where string) {
 		cl := clause(a, b)
@@ -472,7 +474,18 @@ func run(c *hx.Ctx) error {
 	}
 	for i, in := range ins {
 		t0 := time.Now()
+		var m0, m1 runtime.MemStats
+		runtime.ReadMemStats(&m0)
 		first[i] = buildOnce(in)
+		runtime.ReadMemStats(&m1)
+		if (m1.TotalAlloc-m0.TotalAlloc)>>20 > 200 {
+			// a few corpus programs (huge array types) make Build allocate gigabytes — C04's
+			// business; building them 8 + 3 times, the children in parallel, gets the run killed
+			res.Hist("huge-allocation-built-once")
+			res.Count(in.Name+"#"+strconv.FormatUint(c.Seed, 10), first[i].Err == "")
+			skip[i] = true
+			continue
+		}
 		if el := time.Since(t0); el > 250*time.Millisecond && c.Quick() {
 			// a few corpus programs take seconds to build: in the quick tier they are built once
 			// here (and once in each child process)
@@ -507,7 +520,15 @@ func run(c *hx.Ctx) error {
 		return err
 	}
 	defer os.RemoveAll(tmp)
-	data, _ := json.Marshal(ins)
+	var childIns []*input
+	var childIdx []int
+	for i, in := range ins {
+		if !skip[i] {
+			childIns = append(childIns, in)
+			childIdx = append(childIdx, i)
+		}
+	}
+	data, _ := json.Marshal(childIns)
 	file := filepath.Join(tmp, "inputs.json")
 	if err := os.WriteFile(file, data, 0o644); err != nil {
 		return err
@@ -536,10 +557,11 @@ func run(c *hx.Ctx) error {
 	}
 	for p := 0; p < procs; p++ {
 		r := <-ch
-		if r.err != nil || len(r.ds) != len(ins) {
-			return fmt.Errorf("child process: %v (%d results for %d inputs)", r.err, len(r.ds), len(ins))
+		if r.err != nil || len(r.ds) != len(childIns) {
+			return fmt.Errorf("child process: %v (%d results for %d inputs)", r.err, len(r.ds), len(childIns))
 		}
-		for i, d := range r.ds {
+		for j, d := range r.ds {
+			i := childIdx[j]
 			if d.key() != first[i].key() {
 				report(ins[i], first[i], d, "another process")
 			}
